@@ -563,7 +563,7 @@ func (e *Exec) evalGhostBuiltin(st *State, call *ast.CallExpr, name string) Term
 				return st.Vars[e.vis[i].cnt]
 			}
 		}
-		e.unsupported(call.Pos(), "__iter outside a range-over-map loop")
+		e.unsupported(call.Pos(), "__iter outside a for or range-over-map loop")
 		return Int(0)
 	case "__idx":
 		for i := len(e.vis) - 1; i >= 0; i-- {
